@@ -33,7 +33,7 @@ CLAIMS = {
                 text="ConvertScalarToScalarBasic<F,T>::solve for all 144 ordered pairs of the primitive numeric kinds: representable => exactly that value (widen-then-narrow identity), float->int truncates toward zero and clamps, NaN -> 0; oracles avoid the cast under test. Matrix conversion / reshape / unsupported pairs not yet under contract.",
                 note="Trusted: Kani/CBMC bit-precise casts; std TryFrom as integer oracle.", ref="4 C12"),
     "C14": dict(cat="proof", tech="Kani on the Hash/Eq law of Value with a recording hasher",
-                text="Partial: for every scalar kind, a == b implies identical bytes are fed to the hasher (the law that makes IndexSet<Value> keep distinct elements), full value domain (signed zeros repaired by a fix: commit); MechSet metadata refresh of the set operators under an assumed IndexSet spec (Verus); operand order of the MutableReference fallback arms (Verus fragments). The set algebra itself is indexmap's assumed contract.",
+                text="Partial: for every scalar kind, a == b implies identical bytes are fed to the hasher (the law that makes IndexSet<Value> keep distinct elements), full value domain (signed zeros repaired by a fix: commit); MechSet::hash proved to feed one word that is invariant under permutation of the insertion order (permutation lemma proved; repaired by a fix: commit); the seven subset/superset/equality/disjointness kernels equal the mathematical relations, MechSet metadata refresh of the four operators, the kind-homogeneity check of the set literal (Verus, assumed IndexSet spec); operand order of the MutableReference fallback arms (Verus fragments). The set algebra itself is indexmap's assumed contract.",
                 note="Hash containers cannot run under CBMC (P12); set operations, metadata refresh and comprehensions not decided.", ref="4 C14"),
     "C15": dict(cat="proof", tech="Kani on count fragments cut verbatim from the dispatch-arm macros + fill kernels on real nalgebra",
                 text="Element-count computation of the four range dispatch arms (fragment F, verbatim text, every kind) against the exact count over mathematical integers, loop-free over the full domain; fill kernels Range*Scalar::solve against out[i]==a+i*s on real nalgebra (bounded length 4) and, transcribed over Vec<T>, proved by Verus for every length. Known defects pinned as known findings (span wider than the kind, fractional exclusive float ranges, negative steps); the fill overflow at the kind's maximum was repaired by a fix: commit.",
